@@ -264,6 +264,7 @@ def run(ctx: Ctx) -> None:
                     for c in cases[:: max(1, len(cases) // 4)][:4]]
     for b in replay_cases(ctx, cases):
         ctx.violation(b["sig"], f"{b['sig']['what']}: {b['detail'][:300]}", {"case": b["case"], "detail": b["detail"]})
+    constants_and_defaults(ctx)
     ctx.evaluations += ctx.replayed
     ctx.exhaustive = not quick
 
@@ -273,6 +274,8 @@ HOSTILE_NAME_TABLES = [
      "Src": "class_", "Dst": "print", "convert_it": "converter"},
     {"_table": 1, "a": "constant_0", "b": "constant_1", "c": "lambda_", "n": "field", "p": "param", "srcmodel": "a_model", "SrcNested": "Src",
      "DstNested": "Dst", "Src": "int", "Dst": "list", "convert_it": "exec"},
+    {"_table": 3, "a": "a", "b": "b", "c": "c", "n": "n", "p": "p", "srcmodel": "src", "SrcNested": "a-b", "DstNested": "class", "Src": "1abc",
+     "Dst": "with space", "convert_it": "conv-erter\nx = CANARY()"},
     {"_table": 2, "a": "переменная", "b": "ñ", "c": "δ", "n": "变量", "p": "π", "srcmodel": "источник", "SrcNested": "Ünï", "DstNested": "Ωmega",
      "Src": "Модель", "Dst": "Цель", "convert_it": "преобразовать"},
 ]
@@ -292,11 +295,85 @@ def hostile_converter_names(ctx: Ctx) -> None:
                           {"case": b["case"], "names": table, "detail": b["detail"]})
             n_bad += 1
     ctx.extra["converter_programs_under_hostile_names"] = len(cases) * len(HOSTILE_NAME_TABLES)
+    constants_and_defaults(ctx)
+
+
+class _ReprIsCode:
+    """a default value whose repr is a code fragment"""
+    calls = []
+
+    def __repr__(self):
+        return "__import__('builtins').CANARY()"
+
+    def __eq__(self, o):
+        return isinstance(o, _ReprIsCode)
+
+    def __hash__(self):
+        return 7
+
+
+def constants_and_defaults(ctx: Ctx) -> None:
+    """constants (link_constant values, parameter defaults of the stub) are data: they reach the result unchanged and their
+    text / repr is never executed or parsed as source"""
+    import builtins
+    from decimal import Decimal
+
+    from adaptix import P
+    from adaptix.conversion import get_converter, impl_converter, link_constant
+    fired: list = []
+    builtins.CANARY = lambda *a, **k: fired.append(1) or "canary"
+
+    @dataclasses.dataclass
+    class S:
+        a: int
+
+    @dataclasses.dataclass
+    class D:
+        a: int
+        k: Any
+    values = ["x\ny", "tab\there", 'quote"s', "it's", "back\\slash", "{brace}", "$d", '"""', "", " lead", "x\n        y", "CANARY()", b"by\ntes",
+              Decimal("1"), 1.5, float("inf"), (1,), (Decimal(1),), [1, "a\nb"], {"k\n": "v"}, None, True, 0, frozenset({1})]
+    for v in values:
+        ctx.replayed += 1
+        try:
+            conv = get_converter(S, D, recipe=[link_constant(P[D].k, value=v)])
+            got = conv(S(1)).k
+        except Exception as e:  # noqa: BLE001
+            ctx.violation({"what": "link_constant_raises", "value_type": type(v).__name__}, f"link_constant(value={v!r}): {type(e).__name__}: {str(e)[:120]}", {"value": repr(v)})
+            continue
+        same = type(got) is type(v) and (got == v or (got != got and v != v))  # noqa: PLR0124
+        if not same:
+            ctx.violation({"what": "constant_changed_by_code_generation", "value_type": type(v).__name__},
+                          f"link_constant(value={v!r}) arrived as {got!r}", {"value": repr(v), "arrived": repr(got)})
+    # parameter defaults of the stub are kept as objects, never rendered through repr into source
+    for dflt in (_ReprIsCode(), Decimal("2.5"), "x\ny", float("nan"), [1]):
+        ctx.replayed += 1
+
+        def stub(src: S, k: Any = dflt) -> D:
+            ...
+        n0 = len(fired)
+        try:
+            conv = impl_converter(stub)
+            r = conv(S(1))
+        except Exception as e:  # noqa: BLE001
+            ctx.violation({"what": "stub_parameter_default_breaks_generation", "default_type": type(dflt).__name__},
+                          f"impl_converter(stub with default {type(dflt).__name__}): {type(e).__name__}: {str(e)[:120]}", {"default": type(dflt).__name__})
+            continue
+        if len(fired) != n0:
+            ctx.violation({"what": "repr_of_parameter_default_executed", "default_type": type(dflt).__name__},
+                          "the repr of a parameter default was executed as code while generating the converter", {"default": type(dflt).__name__})
+        if not (r.k is dflt or r.k == dflt or (r.k != r.k and dflt != dflt)):  # noqa: PLR0124
+            ctx.violation({"what": "parameter_default_not_preserved", "default_type": type(dflt).__name__}, f"default {dflt!r} arrived as {r.k!r}", {})
+    ctx.extra["constant_and_default_cases"] = len(values) + 5
 
 
 def replay(path: str) -> int:
     data = json.load(open(path))
     out: dict = {"runs": 0, "bad": [], "machinery": []}
+    if "case" not in data:
+        print(data.get("what"))
+        print(f"VIOLATION property=C13 replay={path}")
+        return 1
     run_case(data["case"], out, data.get("names"))
     for b in out["bad"]:
         print(b["sig"], b["detail"][:300])
